@@ -74,6 +74,18 @@ class Rec:
         return "Rec(%s)" % ", ".join("%s=%s" % (k, self.f[k]) for k in self.order)
 
 
+class Fmt:
+    """result of `template % args` or repr(x): formatting is C-level, the obligation
+    interprets it by its documented contract"""
+
+    def __init__(self, template, args):
+        self.template = template
+        self.args = args
+
+    def __repr__(self):
+        return "Fmt(%r, %r)" % (self.template, self.args)
+
+
 class _Return(Exception):
     def __init__(self, v):
         self.v = v
@@ -172,6 +184,8 @@ class Interp:
 
     def e_BinOp(self, n):
         a, b = self.ev(n.left), self.ev(n.right)
+        if isinstance(n.op, ast.Mod) and isinstance(a, str):
+            return Fmt(a, b if isinstance(b, tuple) else (b,))
         if not is_sym(a) and not is_sym(b):
             if isinstance(n.op, ast.Add):
                 return a + b
@@ -263,6 +277,12 @@ class Interp:
             if is_sym(args[0]):
                 return z3.fpRoundToIntegral(RNE, args[0])
             return round(args[0])
+        if fname == "int" and len(args) == 1:
+            if is_sym(args[0]):
+                return z3.fpRoundToIntegral(z3.RTZ(), args[0])
+            return int(args[0])
+        if fname == "repr" and len(args) == 1:
+            return Fmt("repr", (args[0],))
         if fname == "float" and len(args) == 1:
             return args[0] if is_sym(args[0]) else float(args[0])
         if fname == "abs" and len(args) == 1:
@@ -275,9 +295,27 @@ class Interp:
             c = self.cmp(ast.Gt() if fname == "max" else ast.Lt(), b, a)
             return b if self.ctx.branch(c) else a
         f = self.ev(n.func)
+        if inspect.isfunction(f) and (getattr(f, "__module__", "") or "").startswith("praatio"):
+            return self.inline(f, args)
         if callable(f) and not is_sym(f):
             return f(*args)
         raise Unsupported("call " + ast.unparse(n)[:80])
+
+    def inline(self, f, args):
+        """interpret the body of a praatio function with the given (possibly symbolic)
+        positional arguments; defaults are taken from the signature"""
+        fdef = func_ast(f)
+        sig = inspect.signature(f)
+        ba = sig.bind(*args)
+        ba.apply_defaults()
+        env = dict(f.__globals__)
+        env.update(ba.arguments)
+        sub = Interp(self.ctx, env)
+        try:
+            sub.run(fdef.body)
+        except _Return as r:
+            return r.v
+        return None
 
     # ---- statements
     def run(self, stmts):
